@@ -622,7 +622,7 @@ def run_check(prop_id, tier='quick', seed=0, budget_s=None, procs=None, replay_s
     meta = getattr(prop, 'META', {})
     budget_s = budget_s or meta.get('budget_s', {}).get(tier, 150 if tier == 'quick' else 1500)
     procs = procs or int(os.environ.get('VERIF_PROCS', '16'))
-    replay_samples = replay_samples if replay_samples is not None else (12 if tier == 'quick' else 40)
+    replay_samples = replay_samples if replay_samples is not None else meta.get('replay_samples', {}).get(tier, 12 if tier == 'quick' else 40)
     findings = load_findings()
     strict = os.environ.get('VERIF_STRICT') == '1'
 
